@@ -564,11 +564,33 @@ def _run_series(case, ctx):
         Z = pd.DataFrame({"c%d" % j: v * (j + 1) + j for j in range(k)}, index=zs.index)
         sc = [StandardScaler(), MinMaxScaler()][case["p"] % 2]
         arg = Z if k > 1 else zs
-        ok, out = ctx.call("series:adaptor-exception", TabularToSeriesAdaptor(sc).fit_transform, arg)
+        # the adaptor may have been used before: fitted on other data with another wrapped transformer / another setting, then reconfigured
+        hist = (case["p"] // 6) % 3
+        centred = True
+        if hist == 0:
+            ad = TabularToSeriesAdaptor(sc)
+        else:
+            other = pd.Series(np.linspace(-40.0, 90.0, 9), index=pd.RangeIndex(3, 12))
+            othr = other if k == 1 else pd.DataFrame({"c%d" % j: other * (j + 2) for j in range(k)})
+            if hist == 1:
+                ad = TabularToSeriesAdaptor([MinMaxScaler(), StandardScaler()][case["p"] % 2])
+                ad.fit(othr)
+                ad.set_params(transformer=sc)
+                ctx.tag("adaptor:used-then-transformer-replaced")
+            else:
+                ad = TabularToSeriesAdaptor(sc)
+                ad.fit(othr)
+                if case["p"] % 2 == 0:
+                    ad.set_params(transformer__with_mean=False)
+                    centred = False
+                else:
+                    ad.set_params(transformer__feature_range=(0, 1))
+                ctx.tag("adaptor:used-then-nested-parameter-set")
+        ok, out = ctx.call("series:adaptor-exception", ad.fit_transform, arg)
         if ok:
             A = Z.values if k > 1 else v.reshape(-1, 1)
             if case["p"] % 2 == 0:
-                exp = (A - A.mean(axis=0)) / A.std(axis=0)
+                exp = (A - (A.mean(axis=0) if centred else 0.0)) / A.std(axis=0)
             else:
                 exp = (A - A.min(axis=0)) / (A.max(axis=0) - A.min(axis=0))
             got = np.asarray(out, dtype=float).reshape(len(A), -1)
